@@ -8,7 +8,6 @@ import (
 	"context"
 	"errors"
 	"fmt"
-	"os"
 	"sort"
 	"strings"
 	"time"
@@ -716,13 +715,6 @@ func runRounds(c *kit.Ctx, r *kit.Rand, nOps int) {
 	}
 	pools0 := append([]jPool(nil), pools...) // the JSON form shows the initial budgets
 	sys0 := s.gSys()
-	debug := os.Getenv("C05_DEBUG_CASE") == fmt.Sprint(c.NextID())
-	if debug {
-		for n := range w.cluster.Nodes() {
-			fmt.Fprintln(os.Stderr, "DEBUG initial", n.Name(), "marked", n.MarkedForDeletion(), "init", n.Initialized())
-		}
-		fmt.Fprintln(os.Stderr, "DEBUG sys0", sys0)
-	}
 	clusterCost := cost.NewClusterCost(w.ctx, w.cp, w.c)
 	var gops []string
 	var jops []jOp
@@ -807,12 +799,6 @@ func runRounds(c *kit.Ctx, r *kit.Rand, nOps int) {
 			ctrl := disruption.NewController(w.clk, w.c, w.prov, w.cp, w.recorder, w.cluster, w.queue, clusterCost, disruption.WithMethods(rec))
 			if _, err := ctrl.Reconcile(w.ctx); err != nil {
 				panic(fmt.Sprintf("Reconcile(%s): %v", methodNames[m], err))
-			}
-			if debug {
-				fmt.Fprintln(os.Stderr, "DEBUG disrupt", methodNames[m], "mapping", rec.mapping, "cmds", cmdIDs(rec.cmds))
-				for n := range w.cluster.Nodes() {
-					fmt.Fprintln(os.Stderr, "DEBUG   ", n.Name(), "marked", n.MarkedForDeletion(), "init", n.Initialized())
-				}
 			}
 			after := queued()
 			var newq []int
